@@ -62,6 +62,7 @@ type NodeSpec struct {
 	DisconnectAtMsg   int    `json:"disconnect_at_msg,omitempty"`
 	CloseAfterVersion bool   `json:"close_after_version,omitempty"` // the first connection is lost after the node's version message, before its verack
 	LoseFirstN        int    `json:"lose_first_n,omitempty"`        // the scripted loss (disconnect_at_msg / close_after_version) hits the first n connections, not only the first
+	VersionTwice      bool   `json:"version_twice,omitempty"`       // on its first connection(s) the node sends its version message twice and no verack
 	IgnoreStop        bool   `json:"ignore_stop,omitempty"`         // answers do not end at the stop hash (all that remain, or the cap)
 	SilentFirst       bool   `json:"silent_first,omitempty"`        // the first connection never answers getheaders, later ones do
 	OffendOnce        bool   `json:"offend_once,omitempty"`         // forbidden: after it has delivered the forbidden header once the node follows the honest chain
@@ -482,7 +483,7 @@ func Execute(s *Scenario, dir string) (res *Result) {
 				n.Cap = ns.Cap
 			}
 			n.DisconnectAtMsg = ns.DisconnectAtMsg
-			n.CloseAfterVersion, n.IgnoreStop, n.SilentFirst, n.LoseFirstN = ns.CloseAfterVersion, ns.IgnoreStop, ns.SilentFirst, ns.LoseFirstN
+			n.CloseAfterVersion, n.IgnoreStop, n.SilentFirst, n.LoseFirstN, n.VersionTwice = ns.CloseAfterVersion, ns.IgnoreStop, ns.SilentFirst, ns.LoseFirstN, ns.VersionTwice
 			n.DropAfterHeight = ns.DropAfterHeight
 			n.VersionLag = ns.VersionLag
 			n.InvBatch = ns.InvBatch
@@ -1063,6 +1064,8 @@ func (x *runner) slotLost(i int, ns NodeSpec, more time.Duration) bool {
 // lossClass names the point at which a node's first connection is scripted to go away.
 func (x *runner) lossClass(ns NodeSpec) string {
 	switch {
+	case ns.VersionTwice:
+		return "lost-after-two-version-messages"
 	case ns.CloseAfterVersion:
 		return "lost-after-its-version-before-its-verack"
 	case ns.DisconnectAtMsg == 1:
